@@ -14,7 +14,7 @@ import (
 
 func init() {
 	Register("C05", "Decides structural necessary conditions of 'type references resolve exactly; UsedUserTypes() lists exactly the names used': (agree) every reference position the resolvers (checker, compiler, example builder, OpenAPI) read is also read by the collector behind UsedUserTypes(); (walk) the collector descends into every node kind that has children; (dedupe) a name is appended only when it is new; (miss) every failed lookup in a type table raises ErrUserTypeNotFound with the name (the one deviant site is the recursion checker, reported under C06). Does NOT decide the iff over all reference graphs nor that unused valid types never change a result.",
-		c05agree, c05walk, c05descend, c05dedupe, c05miss, c05rawkey, func(c *core.Ctx) { c07walkAs(c, "C05.allofwalk") })
+		c05agree, c05walk, c05descend, c05record, c05dedupe, c05miss, c05rawkey, func(c *core.Ctx) { c07walkAs(c, "C05.allofwalk") })
 }
 
 // reference accessors: methods through which a type name stored in the model is read.
@@ -464,4 +464,39 @@ func commaOKDef(pk *packagesPackage, fn *ast.FuncDecl, id *ast.Ident) bool {
 		return true
 	})
 	return found
+}
+
+// c05record: every alternative written in the schema is recorded.
+func c05record(c *core.Ctx) {
+	const R = "C05.record"
+	c.Rule(R, "the recorders of type names (TypesList.AddName, TypesList.AddNameWithASTNode) append unconditionally: no return statement and no condition around the appends. Every `@a | @b` alternative and every `or` item written in the schema must reach the list the resolvers and the collector read - a de-duplication or filter there silently drops a reference (and its `type not found` diagnostic)")
+	c.Floor(R, 2)
+	for _, fn := range []string{"(*notations/jschema/ischema/constraint.TypesList).AddName", "(*notations/jschema/ischema/constraint.TypesList).AddNameWithASTNode"} {
+		d := c.P.FindDecl(fn)
+		if d == nil {
+			c.Unresolved(R, fn)
+			continue
+		}
+		bad := ""
+		appends := 0
+		for _, st := range d.Decl.Body.List {
+			switch x := st.(type) {
+			case *ast.AssignStmt:
+				if len(x.Rhs) == 1 && strings.HasPrefix(core.ExprStr(x.Rhs[0]), "append(") {
+					appends++
+				}
+			case *ast.ExprStmt:
+				// delegation to the sibling recorder
+				if call, ok := x.X.(*ast.CallExpr); ok && strings.Contains(core.ExprStr(call.Fun), ".AddName") {
+					appends++
+				}
+			case *ast.IfStmt, *ast.ReturnStmt, *ast.SwitchStmt, *ast.ForStmt, *ast.RangeStmt:
+				bad = "control flow (" + core.ExprStr0(st) + ")"
+			}
+		}
+		if appends == 0 && bad == "" {
+			bad = "no append at the top level of the function"
+		}
+		c.Check(bad == "", R, fn, c.P.Pos(d.Decl.Pos()), fn+" records every name it is given", "a name can be dropped: "+clip(bad, 160))
+	}
 }
